@@ -22,7 +22,7 @@ func init() {
 	engines["C18"] = &engine{N: tierN(0, 0), Whole: c18Whole}
 }
 
-const c18NumOperands = 24
+const c18NumOperands = 29
 
 var c18OpNames = []string{"Add", "Sub", "Mul", "Sqr", "Quo", "FMA", "Sqrt", "Cmp", "Text", "Format", "Float64", "Int", "Rat", "Gob", "MarshalText", "Set", "Float"}
 
@@ -146,6 +146,15 @@ func c18Whole(c *hx.Ctx) {
 		vals = append(vals, v)
 	}
 	vals = append(vals, oracle.Val{Form: oracle.Zero}, oracle.Val{Form: oracle.Zero, Neg: true}, oracle.Val{Form: oracle.Inf}, oracle.Val{Form: oracle.Finite, Coef: big.NewInt(1), Exp: 0})
+	// integers whose mantissa is exactly the integer part (2, 3 and 6 words), a value with zero low words, a power of ten
+	for _, n := range []int{38, 57, 114} {
+		v := r.Finite(n, int64(n))
+		v.Neg = false
+		vals = append(vals, v)
+	}
+	vals = append(vals,
+		oracle.Val{Form: oracle.Finite, Coef: new(big.Int).Mul(hx.CoefOf(r.Digits(30)), oracle.Pow10(57)), Exp: -60},
+		oracle.Val{Form: oracle.Finite, Coef: big.NewInt(1), Exp: 40})
 	ops := make([]*decimal.Decimal, len(vals))
 	for i, v := range vals {
 		ops[i] = hx.Mk(v, digitsOf(v)+uint(r.Intn(20)), r.Mode())
@@ -183,7 +192,15 @@ func c18Whole(c *hx.Ctx) {
 	}
 	ref := make([]string, njobs)
 	for i, j := range jobs {
+		c.Begin(int64(i), fmt.Sprintf("sequential reference job %d %s(x=#%d y=#%d u=#%d prec=%d mode=%d)", i, c18OpNames[j.op], j.x, j.y, j.u, j.prec, j.mode))
 		ref[i] = c18Exec(j, ops)
+		// a read-only use must leave its operands bit-identical (checked at once: a damaged operand may make a later job loop)
+		for _, oi := range []int{j.x, j.y, j.u} {
+			if !before[oi].Same(hx.RawOf(ops[oi])) {
+				c.Violate("operand-modified", fmt.Sprintf("operand %d was modified by %s used sequentially as a read-only operation: %s -> %s", oi, c18OpNames[j.op], briefRaw(before[oi]), briefRaw(hx.RawOf(ops[oi]))), "")
+				return
+			}
+		}
 	}
 	for i, j := range jobs {
 		if got := c18Exec(j, ops); got != ref[i] {
